@@ -62,7 +62,7 @@ func c11Nontrivial(e *engine) bool {
 func TestC11_Rapid(t *testing.T) {
 	rec := evid.For("C11")
 	c11Notes(rec)
-	pbt.Check(t, rec, "history", evid.Pick(3000, 60000), func(rt *rapid.T) (any, error) {
+	pbt.Check(t, rec, "history", evid.Pick(8000, 60000), func(rt *rapid.T) (any, error) {
 		c := genC11(rt)
 		e, err := safeRun(c)
 		rec.Case("retransmission", histSig(c), c11Nontrivial(e), func() any { return c })
